@@ -264,6 +264,9 @@ pub fn c17(out: &mut dyn Write, tier: &str, rng: &mut Rng, st: &mut Stats) {
                 s.push_str(&dd.to_string());
             } else if blank == ' ' { s.push('.'); } else { s.push(blank); }
             if i % 4 == 3 && rng.chance(1, 2) { s.push(*rng.pick(&['\n', '\n', '\u{b}', '\u{2028}', '\u{85}'][..])); }
+            // an empty line between two rows (or before the first cell): still only white space
+            if i % 4 == 3 && rng.chance(1, 6) { s.push_str("\n\n"); }
+            if i == 0 && rng.chance(1, 12) { s.insert_str(0, "\n\n"); }
             // any Unicode white space is ignored, not only the ASCII ones
             if rng.chance(1, 8) { s.push(*rng.pick(&[' ', ' ', '\t', '\u{a0}', '\u{3000}', '\u{2003}', '\u{c}'][..])); }
         }
@@ -271,7 +274,7 @@ pub fn c17(out: &mut dyn Write, tier: &str, rng: &mut Rng, st: &mut Stats) {
         if rng.chance(1, 4) { let keep_chars = rng.below(s.chars().count() as u64 + 1) as usize; s = s.chars().take(keep_chars).collect(); }
         cases.push((2, s));
     }
-    for p in ["1234\n34", "12343", "1", "12", "123412", "1234341221", ".2.4.1", "1...\u{b}..2.\u{b}.3..\u{b}...4", "1\u{a0}.\u{a0}.\u{a0}2", "\u{3000}12\u{2028}34"] { cases.push((2, p.to_string())); }
+    for p in ["1234\n34", "12343", "1", "12", "123412", "1234341221", ".2.4.1", "1...\u{b}..2.\u{b}.3..\u{b}...4", "1\u{a0}.\u{a0}.\u{a0}2", "\u{3000}12\u{2028}34", "12..\n....\n\n....\n..12\n", "\n1234\n\n\n3412"] { cases.push((2, p.to_string())); }
     // root 3: a few puzzles (the formula has 729 variables; only structure and solution soundness)
     let solved9 = "534678912672195348198342567859761423426853791713924856961537284287419635345286179";
     let n3 = if tier == "thorough" { 50 } else { 4 };
